@@ -16,6 +16,16 @@ def run(res, tier):
     sources = [gen_layout(base + i, profile=i) for i in range(n)] + [gen_gated(base + i) for i in range(n // 3)] + \
               [gen_latch(base + i) for i in range(n // 3)] + [gen_scalar(base + i) for i in range(n // 3)]
     jobs = matrix(sources, tier)
+    # memory cells under a near-zero solver budget, in every run: their internal wires are planned outside relay
+    # routing, so a stretched layout is where an over-long wire would come from (F39)
+    mem_sources = [gen_gated(base + 1000 + i) for i in range(6 if tier == "quick" else 40)]
+    sources = sources + mem_sources
+    jobs += [(s, {"optimize": opt, "power_poles": None, "forced_layout": "zero_budget", "want_geometry": True})
+             for s in mem_sources for opt in (True, False)]
+    # ... and a deterministic poor outcome: one gate of a cell (or one combinator) placed 14 tiles beyond the rest.
+    # The stage must route, retry or refuse; it must not emit the over-long wire.
+    jobs += [(s, {"optimize": True, "power_poles": pp, "forced_layout": "stretch", "want_geometry": True})
+             for s in mem_sources[:4] + sources[: (2 if tier == "quick" else 20)] for pp in (None, "medium")]
     recs, geo, wfv, sem = run_geo(jobs)
     stats = collections.Counter()
     for r in recs:
